@@ -114,7 +114,7 @@ pub fn run(ctx: &Ctx) -> Report {
             let lo = c as u64 * chunk;
             let stride: u64 = match ctx.tier {
                 Tier::Thorough => 1,
-                Tier::Quick => 251,
+                Tier::Quick => 61,
                 Tier::Tiny => 1 << 22,
             };
             let vals = (lo..lo + chunk).step_by(stride as usize).map(|u| u as u32 as i32);
